@@ -6,8 +6,9 @@ import LentilVerif.Lemmas.SpecArith
 namespace Lentil.C13
 open Lentil.Spec Lentil.Units Gen
 
-/-- the result at each grid point is `op(S₁(g), S₂(g))`, where `Sᵢ = operandAt sᵢ …` (next two theorems: the linear
-interpolant inside the operand's range, the fill value outside), for every operator -/
+/-- (structural, close to the model's definition) the result's values are `op(S₁(g), S₂(g))` at every point `g` of the common
+grid, where `Sᵢ = operandAt sᵢ …`; what `Sᵢ` *is* — the mathematical linear interpolant inside the operand's range, the fill
+value outside — is `operand_is_interpolant` below. For every operator. -/
 theorem ufunc_pointwise (op : ℚ → ℚ → ℚ) (s1 s2 : Spectrum) (m : Sampling) (fill : ℚ) (r : Spectrum)
     (h : ufunc op s1 s2 m fill = .ok r) :
     ∃ lo1 hi1 lo2 hi2 dw, minL s1.wave = some lo1 ∧ maxL s1.wave = some hi1 ∧ minL s2.wave = some lo2 ∧
@@ -47,6 +48,64 @@ theorem operand_outside (s : Spectrum) (lo hi tol fill g : ℚ) (h : g < lo - to
     simp [operandAt, this]
   · have : ¬ g ≤ hi + tol := not_le.mpr h
     simp [operandAt, this]
+
+/-- the operands seen from a grid point, against the *mathematical* interpolant (`IsLinInterp`, defined in
+Lemmas/SpecArith.lean by the segment formula, without reference to the model's `seg`/`interpAt`/`operandAt`): inside the
+operand's own range `Sᵢ(g)` is the value at `g` of the piecewise-linear function through its samples; beyond the
+`1e-9·Δ` guard it is the fill value. With `ufunc_pointwise` (result = op(S₁(g), S₂(g)) on the grid) this is the
+property's "operation applied to each operand's interpolated value, fill where an operand is not defined" -/
+theorem operand_is_interpolant (s : Spectrum) (hwf : WF s) (h2 : 2 ≤ s.wave.length) (lo hi tol fill g : ℚ)
+    (hlo : minL s.wave = some lo) (hhi : maxL s.wave = some hi) (ht : 0 ≤ tol) :
+    (lo ≤ g → g ≤ hi → IsLinInterp s.wave s.value g (operandAt s lo hi tol fill g)) ∧
+    (g < lo - tol ∨ hi + tol < g → operandAt s lo hi tol fill g = fill) := by
+  constructor
+  · intro h1 h3
+    have a : lo - tol ≤ g := by linarith
+    have b : g ≤ hi + tol := by linarith
+    have c1 : ¬ g < lo := not_lt.mpr h1
+    have c2 : ¬ hi < g := not_lt.mpr h3
+    rw [minL_eq_head _ hwf.1] at hlo
+    rw [maxL_eq_getLast _ hwf.1] at hhi
+    have : operandAt s lo hi tol fill g = seg s.wave s.value g := by
+      simp [operandAt, a, b, clip, c1, c2, interpAt, hlo, hhi]
+    rw [this]
+    exact seg_spec s.wave s.value g lo hi hwf.2 h2 hwf.1 hlo hhi h1 h3
+  · intro h
+    rcases h with h | h
+    · have : ¬ lo - tol ≤ g := not_le.mpr h
+      simp [operandAt, this]
+    · have : ¬ g ≤ hi + tol := not_le.mpr h
+      simp [operandAt, this]
+
+/-- the grid is uniform with step (max−min)/N, and the step does not exceed the requested sampling Δ (up to the guard's
+1e-9·Δ/N): consecutive grid points are `mn + i·h`, `h = (mx−mn)/N ≤ Δ + tol/N` -/
+theorem grid_step_le_requested (mn mx dw : ℚ) (hdw : 0 < dw) (hN : 1 ≤ (gridNum mn mx dw).toNat) :
+    (∀ i, i < (gridNum mn mx dw).toNat →
+        (commonGrid mn mx dw)[i]? = some (mn + (i : ℚ) * ((mx - mn) / ((gridNum mn mx dw).toNat : ℚ))) ∧
+        (commonGrid mn mx dw)[i + 1]? = some (mn + ((i + 1 : ℕ) : ℚ) * ((mx - mn) / ((gridNum mn mx dw).toNat : ℚ)))) ∧
+    (mx - mn) / ((gridNum mn mx dw).toNat : ℚ) ≤ dw + gridTol dw / ((gridNum mn mx dw).toNat : ℚ) := by
+  set N := (gridNum mn mx dw).toNat with hNdef
+  have hn : ¬ (N + 1 = 1) := by omega
+  constructor
+  · intro i hi
+    unfold commonGrid linspace
+    rw [← hNdef, if_neg hn]
+    simp only [List.getElem?_map, Nat.add_sub_cancel]
+    constructor
+    · rw [List.getElem?_range (by omega)]; simp
+    · rw [List.getElem?_range (by omega)]; simp
+  · have hNpos : (0 : ℚ) < (N : ℚ) := by exact_mod_cast (by omega : 0 < N)
+    have hceil : (mx - mn - gridTol dw) / dw ≤ ((gridNum mn mx dw : Int) : ℚ) := by
+      unfold gridNum; exact Rat.le_ceil
+    have hcast : ((gridNum mn mx dw : Int) : ℚ) = (N : ℚ) := by
+      have : (gridNum mn mx dw) = (N : Int) := by
+        rw [hNdef]; exact (Int.toNat_of_nonneg (by omega)).symm
+      rw [this]; simp
+    rw [hcast] at hceil
+    rw [div_le_iff₀ hdw] at hceil
+    rw [div_le_iff₀ hNpos, add_mul, div_mul_cancel₀ _ (ne_of_gt hNpos)]
+    linarith
+
 
 /-- the grid starts at the smaller of the two minima, has `ceil((max−min−tol)/Δ)+1` points … -/
 theorem grid_spans_union_start (mn mx dw : ℚ) :
